@@ -276,7 +276,8 @@ def run_relation(res, rng, scn, tr, base=None, capture=False):
     return ('ok' if ok else 'bad'), dict(gam0=gam0, gam1=gam1, it0=it0, it1=it1, checks=checks)
 
 
-PVAL_FINDING = 'S17-pvalue-pinv-noise'
+PVAL_FINDING = 'C12-pvalue-pinv-noise'
+CONST_FINDING = 'C12-constant-column-units'
 
 
 def pvalue_noise_terms(gam, bad_terms):
@@ -293,6 +294,51 @@ def pvalue_noise_terms(gam, bad_terms):
         if not (len(kept) and kept[-1] < 1e-9 * sv[0]):
             return False
     return True
+
+
+S17_X = [[5.140822, 0.0], [6.295206, 1.0], [6.781372, 2.0], [8.132285, 2.0], [4.654245, 0.0], [5.283667, 0.0], [5.59843, 2.0], [5.880602, 1.0],
+         [8.535161, 2.0], [8.789684, 2.0], [8.826329, 2.0], [5.391781, 0.0], [8.960983, 2.0], [8.711194, 1.0], [8.483915, 1.0], [7.098726, 1.0],
+         [8.99351, 0.0], [6.363354, 0.0]]
+S17_Y = [-0.041495, -0.097043, -0.019284, 0.020099, -0.050937, -0.097352, 0.033562, -0.044424, 0.026273, -0.006916, 0.014628, -0.005003,
+         0.034354, -0.006665, -0.058823, -0.043912, -0.10562, -0.075556]
+
+
+def s17_witness(c=3.0):
+    """candidate finding S17: LinearGAM(l(1) + s(0, l2 penalty) + intercept), 18 rows: predictions scale exactly with y -> 3 y while the
+    p-value of the spline term moves in the 4th digit (0.38400 -> 0.38384); returns (p_values, p_values_scaled, prediction error)"""
+    from pygam import LinearGAM, s, l, intercept
+    X, y = np.array(S17_X), np.array(S17_Y)
+
+    def mk():
+        return LinearGAM(l(1, lam=1795.92, penalties=[None]) + s(0, n_splines=7, spline_order=4, lam=0.00471, penalties='l2') + intercept,
+                         fit_intercept=False, tol=1e-10, max_iter=400)
+    with warnings.catch_warnings(), np.errstate(all='ignore'):
+        warnings.simplefilter('ignore')
+        g1, g2 = mk().fit(X, y), mk().fit(X, c * y)
+    return (np.asarray(g1.statistics_['p_values'], dtype=float), np.asarray(g2.statistics_['p_values'], dtype=float),
+            float(np.max(np.abs(g2.predict(X) - c * g1.predict(X))) / abs(c)), g1, g2)
+
+
+
+def const_column_witness(a=10.0):
+    """the case excluded by the guard of C12_affine_partial (C03_affine_invariance_equal_knots_refuted replayed on the implementation): a
+    CONSTANT training column has equal edge knots, the code replaces the knot range 0 by 1, and a query point off that constant is
+    extrapolated on an absolute scale: predictions there depend on the units of the feature.  returns (mu, mu_mapped, edof, edof_mapped)"""
+    from pygam import LinearGAM, s
+    rs = np.random.RandomState(0)
+    n = 30
+    X = np.c_[np.full(n, 2.0), rs.rand(n)]
+    y = np.sin(3 * X[:, 1]) + 0.1 * rs.randn(n)
+    X2 = X.copy()
+    X2[:, 0] *= a
+    Q = np.array([[2.0, 0.5], [2.5, 0.5], [3.0, 0.5]])
+    Q2 = Q.copy()
+    Q2[:, 0] *= a
+    with warnings.catch_warnings(), np.errstate(all='ignore'):
+        warnings.simplefilter('ignore')
+        g1 = LinearGAM(s(0, n_splines=5) + s(1, n_splines=6)).fit(X, y)
+        g2 = LinearGAM(s(0, n_splines=5) + s(1, n_splines=6)).fit(X2, y)
+    return g1.predict(Q), g2.predict(Q2), float(g1.statistics_['edof']), float(g2.statistics_['edof']), dict(X=X.tolist(), y=y.tolist(), a=a, b=0.0, query=Q.tolist())
 
 
 def linear_checks(res, scn, X, y, w, c, y2, Xq):
@@ -424,6 +470,29 @@ def run(res):
         status.setdefault('linear-in-y', []).append(st)
         if not st.startswith('skipped'):
             res.case(repr(('LinearGAM', 'linear-in-y', 'x%d' % i, repr(scn['specs']))))
+    # candidate finding S17: re-validate the recorded witness on the implementation
+    try:
+        p1, p3, perr, g1, g3 = s17_witness()
+        moved = [int(t) for t in np.nonzero(~(np.abs(p1 - p3) <= TOL))[0]]
+        res.case('s17-witness')
+        if moved:
+            noise = pvalue_noise_terms(g1, moved) or pvalue_noise_terms(g3, moved)
+            res.violations.append(dict(what='LinearGAM p-values change under y -> c y (recorded witness s17_witness)', finding=PVAL_FINDING if noise else None,
+                                       input=dict(fn='harness/props/c12.py:s17_witness', X=S17_X, y=S17_Y, c=3.0),
+                                       observed=dict(p_values=p1.tolist(), p_values_scaled=p3.tolist(), prediction_error=perr), expected='equal within %g' % TOL))
+    except ValueError as e:
+        res.notes.append('s17 witness raised %s' % type(e).__name__)
+    try:
+        m1, m2, e1, e2, winp = const_column_witness()
+        res.case('constant-column-witness')
+        if not (rel(m1, m2) <= TOL and rel_edof(e1, e2) <= TOL):
+            # known shape of the finding: training-value row and edof agree, only rows off the constant differ
+            known_shape = abs(m1[0] - m2[0]) <= TOL * abs(m1[0]) and rel_edof(e1, e2) <= TOL
+            res.violations.append(dict(what='change of units of a CONSTANT training column changes predictions off the constant (equal edge knots)',
+                                       finding=CONST_FINDING if known_shape else None, input=dict(winp, fn='harness/props/c12.py:const_column_witness'),
+                                       observed=dict(mu=m1.tolist(), mu_mapped=m2.tolist(), edof=e1, edof_mapped=e2), expected='equal within %g' % TOL))
+    except ValueError as e:
+        res.notes.append('constant column witness raised %s' % type(e).__name__)
     for kind, sts in sorted(status.items()):
         nbad = sum(1 for s in sts if s == 'bad')
         ncmp = sum(1 for s in sts if s in ('ok', 'bad'))
